@@ -4,7 +4,7 @@ cd "$(dirname "$0")/.." || exit 2
 export VERIF_EVIDENCE_DIR=${VERIF_EVIDENCE_DIR:-/tmp/seed-sweep-evidence}
 rc=0
 for seed in ${SEEDS:-1 2 3 5 8 13}; do
-  for c in C01 C02 C03 C04 C05 C06 C07 C08 C09 C10 C11 C12 C13 C14 C15 C17 C18 C19; do
+  for c in C01 C02 C03 C04 C05 C06 C07 C08 C09 C10 C11 C12 C13 C14 C15 C16 C17 C18 C19; do
     VERIF_SEED=$seed ./check $c quick > /tmp/sweep.out 2>/tmp/sweep.err; e=$?
     echo "seed=$seed $c exit=$e $(grep -c '^VIOLATION' /tmp/sweep.out) violations $(grep -c BROKEN /tmp/sweep.out) broken $(grep -c INCONCLUSIVE /tmp/sweep.out) inconclusive"
     if [ $e -ne 0 ]; then rc=1; grep -E "VIOLATION|DETAIL|BROKEN" /tmp/sweep.out | head -6; fi
